@@ -1076,6 +1076,11 @@ func flt_filterTables(repo string, _ []string) (string, error) {
 		return "", err
 	}
 	sb.WriteString(ls)
+	rs, err := t.emitRunState(repo)
+	if err != nil {
+		return "", err
+	}
+	sb.WriteString(rs)
 	cc, err := t.cmpClosures(repo)
 	if err != nil {
 		return "", err
